@@ -189,7 +189,55 @@ async def cli_targets(ctx):
         shutil.rmtree(base, ignore_errors=True)
 
 
+def amended_output_case(mode: str):
+    """A step is needed only through an output that it announces while it runs (`amend(out=...)`), which a
+    non-optional step consumes.  The relation is learned in a first build; then the producer is made optional
+    (mode `optional`) or the build is restricted to the consumer's output (mode `target`).  After the producer's
+    input changes, the rebuild must execute the producer again and then the consumer."""
+    import copy
+
+    from simdirector import A, FifoSchedule, Project, SimDirector, plan_file
+
+    def plan_of(optional):
+        return [A.static("src.txt"), A.step("gen", inp=["src.txt"], out=["x.txt"], optional=optional),
+                A.step("copy", inp=["y.txt"], out=["final.txt"])]
+
+    plan = plan_of(False)
+    scripts = {"./plan.py": plan, "gen": [A.read_declared(), A.amend(out=["y.txt"]), A.write_declared()]}
+    project = Project(scripts=scripts, files={"plan.py": plan_file(plan), "src.txt": "one\n"})
+    found = []
+    with SimDirector(copy.deepcopy(project), seed=3) as sim:
+        b1 = sim.build(njob=1, schedule=FifoSchedule())
+        first = b1.files.get("final.txt")
+        if b1.status != "done" or not b1.ok or first is None:
+            return [("director-" + b1.status, f"the first build ended with {b1.returncode!r}", {"mode": mode})]
+        kw = {}
+        if mode == "optional":
+            plan2 = plan_of(True)
+            sim.apply([("script", "./plan.py", plan2, ""), ("write", "plan.py", plan_file(plan2))])
+            b = sim.build(njob=1, schedule=FifoSchedule())
+            if not b.ok:
+                return found
+        else:
+            kw = {"targets": ["final.txt"]}
+        sim.apply([("write", "src.txt", "two\n")])
+        b2 = sim.build(njob=1, schedule=FifoSchedule(), **kw)
+        info = {"mode": mode, "rebuild": [repr(b2.returncode), b2.commands]}
+        if "gen" not in b2.commands or b2.files.get("final.txt") == first:
+            found.append(("needed-step-not-executed:producer-needed-only-through-amended-output:" + mode,
+                          f"after its input changed, the step that announces y.txt while it runs was not executed again "
+                          f"({b2.commands}, {b2.returncode!r}) although the step that builds final.txt requires y.txt",
+                          {**info, "events": [e[:2] for e in b2.events if e[0] in ("START", "SKIP", "NOSKIP", "WARNING")][:10]}))
+    return found
+
+
 async def search(ctx):
+    import asyncio as _asyncio
+
+    for mode in ("optional", "target"):
+        for sig, what, extra in await _asyncio.to_thread(amended_output_case, mode):
+            ctx.finding(Finding(PID, sig, what, {**extra, "how": "props/c11.py amended_output_case(mode)"}))
+        ctx.stats.count("scenario:amended-output-" + mode)
     await cli_targets(ctx)
     import corr_kernel as _ck
 
